@@ -10,7 +10,7 @@ META = {
     "engine": "afc",
     "technique": "TLA+ spec AfcShm (two mirrored channel lists with generation counters and read/write offsets, one action per yield point) model-checked with TLC for the table-consistency invariants; edge-covering schedules of its state graph replayed on the real shm WriteState/ReadState under the yield-point scheduler, the verdict coming from an unsynchronised verification snapshot of both lists and from the writer's call results; call/return history validated against AfcAbs",
     "text": "TLC checks, for every interleaving of a writer running scripts of add/remove/remove_if/remove_all up to and beyond the capacity with readers that lock and search the lists: a list that can be locked holds the table before or after the writer call in progress, both lists are equal (order and generation) with opposite offsets and equal to the abstract table whenever the writer is idle, no duplicates, ids strictly increase (a failed add consumes one), OutOfSpace exactly when the table is full, the index-based update of the second list hits the same channel. Every transition of the schedule graphs is executed on real WriteState/ReadState over POSIX shared memory; after each step a snapshot (offsets, next id, per list: lock word, generation, len, ids in order) is compared with the spec. VIOLATION only if on the real code an unlocked list holds a set the writer never produced, the lists differ or differ from the calls' abstract table while the writer is idle, an id is reused, add fails/succeeds contrary to fullness, a reader's sealed message does not open with the key of the channel it asked for, or the history is rejected by AfcAbs (C42 guards).",
-    "note": "Bounds: capacity 2; design run 5 writer scripts of 4 calls x 2 readers x 1 call (thorough: 17 scripts of 3-5 calls x 2 readers x 2 calls); schedule graphs as for C41. Sequentially consistent interleavings only (DESIGN §9). The snapshot hook reads the lists without locking (the scheduler serialises all threads).",
+    "note": "Bounds: capacity 2; design run 5 writer scripts of 4 calls x 2 readers x 1 call (thorough: 17 scripts of 3-5 calls x 2 readers x 2 calls, and capacity 1 with 3 scripts of 4 calls); schedule graphs as for C41. Sequentially consistent interleavings only (DESIGN §9). The snapshot hook reads the lists without locking (the scheduler serialises all threads).",
 }
 
 
@@ -19,7 +19,7 @@ def run(ctx):
     if ctx.replay:
         ctx.absorb(ctx.run_engine(vh, "shm", [afc_util.load_replay(ctx)], opts={"only": "C42"}))
         return
-    cfgs = ["MC_AfcShm_c42_thorough.cfg"] if ctx.thorough else ["MC_AfcShm_c42.cfg"]
+    cfgs = ["MC_AfcShm_c42_thorough.cfg", "MC_AfcShm_cap1.cfg"] if ctx.thorough else ["MC_AfcShm_c42.cfg"]
     (beh, trace), sel = afc_util.shm_check(ctx, vh, "C42", cfgs, None,
                                             actions=[a for a in afc_util.SHM_ACTIONS if a != "e2" or ctx.thorough])
     if ctx.nviol:
